@@ -88,3 +88,23 @@ Lemma ok_running : forallb no_lifecycle w_ok_running = true /\
   drained (run (init_running true) w_ok_running) /\
   out_text (run (init_running true) w_ok_running) = [120; 121; 10; 122; 10].
 Proof. vm_compute. repeat split. Qed.
+
+(* outputs that answer cursor position requests: a print waits for the
+   outstanding report before it erases; a render during that wait is harmless
+   (the erase comes after it), and text printed after exit() queues behind the
+   print that still waits *)
+Definition w_cpr_exit : list label :=
+  [LAppStart; LW 0 ta] ++ batch ++ [LLoopStep; LAppExit; LW 0 tb] ++ batch ++
+  [LLoopStep; LCprTimeout; LWake 0; LAppStop].
+Definition w_cpr_render : list label :=
+  [LAppStart; LW 0 ta] ++ batch ++ [LLoopStep; LRender; LCprAnswer; LW 0 tb] ++ batch ++
+  [LLoopStep; LRender; LCprTimeout].
+
+Lemma cpr_examples :
+  all_enabled (init2 true true) w_cpr_exit = true /\
+  out_text (run (init2 true true) w_cpr_exit) = ta ++ tb /\
+  all_enabled (init2 true true) w_cpr_render = true /\
+  out_text (run (init2 true true) w_cpr_render) = ta ++ tb /\
+  brk_run (out (run (init2 true true) w_cpr_render)) = Some false /\
+  cprwait (cp (run (init2 true true) ([LAppStart; LW 0 ta] ++ batch ++ [LLoopStep]))) = true.
+Proof. vm_compute. repeat split. Qed.
